@@ -87,6 +87,10 @@ pub struct Op {
     pub kind: OpKind,
     /// clock advance (ns) after the 1st, 2nd, 3rd.. reading inside the call (cyclic)
     pub ticks: [u64; 3],
+    /// Some(id): the parse goes through a long-lived `Formatter` object kept
+    /// in slot `id` (created by `Formatter::try_new` on first use, reused by
+    /// later operations of the run that name the same slot and picture)
+    pub slot: Option<u32>,
 }
 
 #[derive(Clone, Debug, PartialEq, Eq)]
@@ -131,9 +135,16 @@ impl Op {
     }
     pub fn describe(&self) -> String {
         match &self.kind {
-            OpKind::Parse { ty, .. } => {
-                format!("{}::parse({:?}, {:?})", ty.name(), self.text(), self.picture())
-            }
+            OpKind::Parse { ty, .. } => match self.slot {
+                Some(id) => format!(
+                    "formatter#{}[Formatter::try_new({:?})].parse::<_, {}>({:?})",
+                    id,
+                    self.picture(),
+                    ty.name(),
+                    self.text()
+                ),
+                None => format!("{}::parse({:?}, {:?})", ty.name(), self.text(), self.picture()),
+            },
             OpKind::Now { ty } => format!("{}::now()", ty.name()),
             OpKind::FromTime { ty, time_usecs } => {
                 format!("{}::try_from(Time[{} us])", ty.name(), time_usecs)
@@ -201,7 +212,7 @@ fn op_to_json(op: &Op) -> Value {
     match &op.kind {
         OpKind::Parse { ty, toks } => json!({
             "ev": "op", "op": "parse", "type": ty.name(),
-            "picture": op.picture(), "text": op.text(), "ticks_ns": ticks,
+            "picture": op.picture(), "text": op.text(), "ticks_ns": ticks, "formatter_slot": op.slot,
             "tokens": toks.iter().map(|t| json!({"pic": t.pic, "txt": t.txt, "sem": sem_to_json(&t.sem)})).collect::<Vec<_>>(),
         }),
         OpKind::Now { ty } => json!({"ev": "op", "op": "now", "type": ty.name(), "ticks_ns": ticks}),
@@ -238,7 +249,11 @@ fn op_from_json(v: &Value) -> Result<Op, String> {
         },
         o => return Err(format!("unknown op {o}")),
     };
-    Ok(Op { kind, ticks })
+    Ok(Op {
+        kind,
+        ticks,
+        slot: v["formatter_slot"].as_u64().map(|x| x as u32),
+    })
 }
 
 impl Script {
